@@ -137,7 +137,7 @@ Section Coll.
     Ok (firstn n (stream ltf m (elems dt table verkey db) c),
         next_of n (firstn n (stream ltf m (elems dt table verkey db) c))).
   Proof.
-    unfold coll_scan_command, coll_scan_generic. rewrite pat_ok. cbn [negb].
+    unfold coll_scan_command, coll_scan_generic, parse_cursor. rewrite pat_ok. cbn [negb].
     rewrite key_size_check. unfold build_specific_range, encode_specific_key. rewrite dt_coll.
     destruct (count_norm count count_pos) as [_ [Hn _]]. rewrite Hn. fold n.
     unfold coll_key. fold p. rewrite app_nil_r.
@@ -156,7 +156,7 @@ Section Coll.
     Ok (firstn n (stream ltr m (rev (elems dt table verkey db)) c),
         next_of n (firstn n (stream ltr m (rev (elems dt table verkey db)) c))).
   Proof.
-    unfold coll_scan_command, coll_scan_generic. rewrite pat_ok. cbn [negb].
+    unfold coll_scan_command, coll_scan_generic, parse_cursor. rewrite pat_ok. cbn [negb].
     rewrite key_size_check. unfold build_specific_range, encode_specific_key. rewrite dt_coll.
     destruct (count_norm count count_pos) as [_ [Hn _]]. rewrite Hn. fold n.
     unfold coll_key. fold p. rewrite app_nil_r.
@@ -219,7 +219,7 @@ Lemma coll_scan_absent compile db dt table verkey rev start pat count m fuel :
   iterate_coll compile (S fuel) db dt table verkey false rev start pat count = ([([], [])], Done).
 Proof.
   intros Hm Hc. unfold iterate_coll. cbn [iterate].
-  unfold coll_scan_command, coll_scan_generic. rewrite Hm. cbn [negb].
+  unfold coll_scan_command, coll_scan_generic, parse_cursor. rewrite Hm. cbn [negb].
   rewrite next_cursor_spec by exact Hc. cbn [length].
   replace (0 <? eff_count count)%nat with true
     by (symmetry; apply Nat.ltb_lt; now apply eff_count_pos).
@@ -302,7 +302,7 @@ Section Keys.
     scan_generic compile db (get_data_store_type d) (wrap_cursor table c) (clamp_count count) pat reverse = Ok pg ->
     key_scan_command compile db d reverse (wrap_cursor table c) pat count = Ok (node_post n inT rk_of pg).
   Proof.
-    intros Hpg Hscan. unfold key_scan_command. rewrite extract_table_wrap by exact table_ok.
+    intros Hpg Hscan. unfold key_scan_command, parse_cursor. rewrite extract_table_wrap by exact table_ok.
     rewrite Hscan. rewrite next_cursor_spec by exact count_pos. fold n. unfold node_post.
     destruct (last_opt pg) as [x|] eqn:Hl.
     - assert (extract_table x <> None) as Hx.
@@ -589,7 +589,7 @@ Section Coll0.
     Ok (firstn n (stream ltf m (elems dt table verkey db) c),
         next_of0 (firstn n (stream ltf m (elems dt table verkey db) c))).
   Proof.
-    unfold coll_scan_command, coll_scan_generic. rewrite pat_ok. cbn [negb].
+    unfold coll_scan_command, coll_scan_generic, parse_cursor. rewrite pat_ok. cbn [negb].
     rewrite key_size_check0. unfold build_specific_range, encode_specific_key. rewrite dt_coll.
     rewrite (clamp_nonpos count count_nonpos). change (N.to_nat (check_scan_count 0)) with n.
     unfold coll_key. fold p. rewrite app_nil_r.
@@ -608,7 +608,7 @@ Section Coll0.
     Ok (firstn n (stream ltr m (rev (elems dt table verkey db)) c),
         next_of0 (firstn n (stream ltr m (rev (elems dt table verkey db)) c))).
   Proof.
-    unfold coll_scan_command, coll_scan_generic. rewrite pat_ok. cbn [negb].
+    unfold coll_scan_command, coll_scan_generic, parse_cursor. rewrite pat_ok. cbn [negb].
     rewrite key_size_check0. unfold build_specific_range, encode_specific_key. rewrite dt_coll.
     rewrite (clamp_nonpos count count_nonpos). change (N.to_nat (check_scan_count 0)) with n.
     unfold coll_key. fold p. rewrite app_nil_r.
@@ -712,7 +712,7 @@ Section Keys0.
     scan_generic compile db (get_data_store_type d) (wrap_cursor table c) (clamp_count count) pat reverse = Ok pg ->
     key_scan_command compile db d reverse (wrap_cursor table c) pat count = Ok (node_post0 inT rk_of pg).
   Proof.
-    intros Hpg Hscan. unfold key_scan_command. rewrite extract_table_wrap by exact table_ok.
+    intros Hpg Hscan. unfold key_scan_command, parse_cursor. rewrite extract_table_wrap by exact table_ok.
     rewrite Hscan. rewrite ?(clamp_nonpos count count_nonpos). rewrite next_cursor_spec0. unfold node_post0.
     destruct (last_opt pg) as [x|] eqn:Hl.
     - assert (extract_table x <> None) as Hx.
@@ -878,3 +878,38 @@ Section Keys0.
     exact Hfuel.
   Qed.
 End Keys0.
+
+(* ---------- which cursor texts mean "from the start" ---------- *)
+
+(* only the empty one; every cursor a scan hands out is the non-empty name of the last element of a full page
+   (theorems above), so no returned cursor is ever taken for the start *)
+Lemma parse_cursor_start c : parse_cursor c = [] <-> c = [].
+Proof. reflexivity. Qed.
+
+Lemma parse_cursor_literal c : parse_cursor c = c.
+Proof. reflexivity. Qed.
+
+(* redis' start sentinel "0" as an alternative interpretation *)
+Definition zero_sentinel (c : bytes) : bytes :=
+  match c with [48] => [] | _ => c end.
+
+(* with it an element really named "0" that ends a page sends the scan back to the start: the iteration over the
+   hash t:h = {"-1", "0", "00"} with COUNT 1 never reaches the empty cursor *)
+Definition sentinel_db : list bytes :=
+  [ coll_key hash_type [116] [104] [45; 49]; coll_key hash_type [116] [104] [48];
+    coll_key hash_type [116] [104] [48; 48]; size_key hsize_type [116; 58; 104] ].
+
+Lemma zero_sentinel_refuted :
+  is_sorted sentinel_db = true /\
+  (* the code: 4 calls, every field once *)
+  iterate 10 (fun c => coll_scan_command mini_compile sentinel_db hash_type [116] [104] true false c [] 1) [] =
+    ([([[45; 49]], [45; 49]); ([[48]], [48]); ([[48; 48]], [48; 48]); ([], [])], Done) /\
+  (* with the sentinel: out of fuel, "-1" and "0" over and over *)
+  snd (iterate 10
+         (fun c => coll_scan_command mini_compile sentinel_db hash_type [116] [104] true false (zero_sentinel c) [] 1) [])
+    = OutOfFuel /\
+  (* and backwards from above the elements below "0" are lost *)
+  map fst (fst (iterate 10
+         (fun c => coll_scan_command mini_compile sentinel_db hash_type [116] [104] true true (zero_sentinel c) [] 1) [255]))
+    = [[[48; 48]]; [[48]]; []].
+Proof. vm_compute. repeat split; reflexivity. Qed.
